@@ -2,7 +2,14 @@
 `elfio::load(std::istream&, bool is_lazy)` and everything under it:
 header gate, `elf_header_impl::load`, `load_sections` (section header + data, eager or lazy,
 name resolution through the section-name string table), `load_segments` (program header +
-data, membership).  Guards are the generated expressions (Gen/Sites*.lean).
+data, membership).  Every integer / boolean decision of these functions (gate tests, loop
+conditions, class dispatch, bounds tests, null tests, completion tests) and the size computations are
+the generated expressions (Gen/Sites.lean, Gen/SitesLoad.lean, Gen/SitesC08.lean), reached through
+small class-dispatch helpers; their hand forms, and the structural reference loops the proofs use,
+are in Lemmas/LoadTie.lean.  Hand-modelled: statement order, the stream calls themselves
+(Model/IStream.lean), `std::vector` / `unique_ptr` bookkeeping, the address translator lookup, the
+`Int` arithmetic of the header offsets (tied to the generated expression by
+`LoadTie.load_sections_hdr_off_val`), allocation failure and decompression (not modelled).
 Allocation requests (`new (nothrow) char[n]`) are logged.
 -/
 import ElfioVerif.Model.Obj
